@@ -328,6 +328,8 @@ def project(hist, rng, kinds, gate="send.genid", tagbase=10):
             steps.append(st)
         elif a == "Rotate":
             steps.append({"a": "Rotate"})
+        elif a == "Close":
+            steps.append({"a": "Close"})
     steps += [{"a": "Drain"}, {"a": "Settle"}]
     return steps
 
